@@ -46,6 +46,8 @@ def cases(tier, seed):
             if lik in ("laplace", "studentt"):
                 # outlying observations: marginal densities far below machine epsilon (log densities around -40 .. -100)
                 yield {"kind": "lik", "lik": lik, "num_locs": nl, "batch": b, "outlier": True, "seed": rnd.randrange(10**6)}
+        for nl, b in itertools.product([20, 32], [[], [2]]):
+            yield {"kind": "lik", "lik": "studentt", "num_locs": nl, "batch": b, "big_df": True, "seed": rnd.randrange(10**6)}
         for b in ([], [2], [3, 2]):
             yield {"kind": "bernoulli", "batch": b, "seed": rnd.randrange(10**6)}
         yield {"kind": "truncation", "lik": "laplace", "seed": rnd.randrange(10**6)}
@@ -301,6 +303,9 @@ def _lik_objects(case, g):
         else:
             lik = L.BernoulliLikelihood()
     util.randomize(lik, g, 0.5)
+    if case.get("big_df"):
+        # degrees of freedom far beyond the usual range (near-Gaussian tails): still the Student-t density of THAT parameter
+        lik.deg_free = 10.0 ** (4.2 + 2.0 * util.rand(g, *lik.deg_free.shape))
     if case["seed"] % 2:
         lik.eval()  # the statements hold in either mode
     return lik
@@ -397,7 +402,7 @@ def _lik(case, ctx, g):
             ctx.close("lik_log_marginal", lmf[bi, i], torch.tensor(float(ref_m)), (1e-9, 1e-9), cls=cls + ":lm")
     # the same quantities as FUNCTIONS: autograd derivatives with respect to the latent mean / variance and the likelihood's
     # own parameters agree with central differences of the very forward that was just checked
-    if not case.get("outlier"):
+    if not case.get("outlier") and not case.get("big_df"):  # (big_df: the central difference in deg_free is rounding noise there)
         for fn_name in ("expected_log_prob", "log_marginal"):
             mm = m.clone().requires_grad_(True)
             vv = v.clone().requires_grad_(True)
